@@ -2,8 +2,7 @@
 Datagrams → packets: the reader goroutine of `AbacoUDPReceiver.start` (abaco.go).  It receives every
 datagram into ONE reusable 8192-byte buffer (`ReadFrom(message)`) and calls `ReadPacket` on the whole buffer,
 so the bytes beyond the datagram's end are whatever earlier datagrams left there; decoded packets are queued
-and handed out, queue by queue, to `ReadAllPackets`.  The first datagram `ReadPacket` rejects ends the
-goroutine.
+and handed out, queue by queue, to `ReadAllPackets`.  A datagram `ReadPacket` rejects is dropped.
 -/
 import DastardV.Model.C15
 namespace DastardV.UdpPk
@@ -14,7 +13,10 @@ def bufSize : Nat := 8192
 /-- the buffer after `ReadFrom(message)` delivered the datagram `msg` (a longer datagram is truncated) -/
 def fill (buf msg : List Nat) : List Nat := msg.take buf.length ++ buf.drop msg.length
 
-/-- packets queued from the datagrams, in order; `true` = the goroutine ended on an undecodable datagram -/
+/-- packets queued from the datagrams, in order.  A datagram `ReadPacket` rejects is DROPPED (since the repair
+588eaa1; before it ended the goroutine and wedged `ReadAllPackets`).  `ReadPacket` on the whole non-empty buffer
+never returns `io.EOF`, the one error that still ends the goroutine: `true` = ended (unreachable, kept to
+mirror the code). -/
 def recvF : List (List Nat) → List Nat → List Packet × Bool
   | [], _ => ([], false)
   | m :: ms, buf =>
@@ -23,7 +25,8 @@ def recvF : List (List Nat) → List Nat → List Packet × Bool
     | (.ok p, _) =>
       let r := recvF ms buf'
       (p :: r.1, r.2)
-    | (.error _, _) => ([], true)
+    | (.error .eof, _) => ([], true)
+    | (.error _, _) => recvF ms buf'
 
 def recv (msgs : List (List Nat)) : List Packet × Bool := recvF msgs (List.replicate bufSize 0)
 
@@ -49,22 +52,25 @@ def pView : P View := do
 /-- `udp msgs n <hex>… clean b OUT k <view>…` : the datagrams sent (in order, one socket, loopback) and all packets
 the real `ReadAllPackets` calls returned, concatenated -/
 def runLine (ts : List String) : Verdict :=
-  let p : P (List (List Nat) × Bool × List View) := do
+  let p : P (List (List Nat) × Bool × List View × Bool) := do
     P.kw "udp"; P.kw "msgs"; let ms ← P.list P.bytes
     P.kw "clean"; let c ← P.bool
     P.kw "OUT"; let vs ← P.list pView
-    pure (ms, c, vs)
+    let pk ← P.peek
+    pure (ms, c, vs, pk == some "WEDGED")
   match P.run p ts with
   | .error e => .bad e
-  | .ok (ms, clean, vs) =>
+  | .ok (ms, clean, vs, wedged) =>
+    if wedged then .viol s!"C03:udp-reader-wedged ReadAllPackets did not return within 3 s after {ms.length} datagrams: the receiver's reader goroutine has ended" else
     let (ps, ended) := recv ms
-    if ended then .bad "the model's reader goroutine ends: the harness must not send undecodable datagrams" else
+    if ended then .bad "the model's reader goroutine ends (io.EOF from ReadPacket on a non-empty buffer: unreachable)" else
     -- the property (clean = every datagram is the encoding of a constructed packet): what the ingest gets is
     -- what was sent, one packet per datagram, in order
     let sentViews := ms.map fun m => match decodeC m with | (.ok q, _) => some (viewOf q) | _ => none
     if clean ∧ sentViews ≠ vs.map some then
       .viol s!"C03:udp-packets-not-fifo {vs.length} packets returned by ReadAllPackets for {ms.length} datagrams sent, or their contents differ from the packets sent"
     else if ps.map viewOf ≠ vs then .diff s!"ReadAllPackets returned {vs.length} packets, model {ps.length} (or their contents differ)"
-    else .ok (["udp"] ++ (if clean then ["udp-clean"] else ["udp-stale-tail"]) ++ (if ms.any (·.isEmpty) then ["udp-empty-datagram"] else []))
+    else .ok (["udp"] ++ (if clean then ["udp-clean"] else ["udp-stale-tail"]) ++ (if ms.any (·.isEmpty) then ["udp-empty-datagram"] else []) ++
+      (if ps.length < ms.length then ["udp-dropped-datagram"] else []))
 
 end DastardV.UdpPk
